@@ -56,6 +56,33 @@ static const char *kind_name(int t)
     return "?";
 }
 
+/* Hooks on unregistered entries, the way log.c, iauth_xquery and iauth_class put theirs on the entries of their sections (registration 'u' turns this on:
+ * after every successful load each unregistered node without a hook gets this one).  Logged with a "u:" prefix; invisible in the dump. */
+static int hook_unregistered;
+static CONF_UPDATE_HOOK(vh_hook_u)
+{
+    hook_count++;
+    char_vector_append_string(&hooklog, "u:");
+    char_vector_append_string(&hooklog, kind_name(node_->type));
+    char_vector_append(&hooklog, ':');
+    node_path(node_, &hooklog);
+    char_vector_append(&hooklog, '\n');
+}
+
+static void hook_unregistered_nodes(struct conf_node_object *obj, int depth)
+{
+    struct set_node *n;
+    int k = 0;
+    if (depth > 16) return;
+    for (n = set_first(&obj->contents); n && k < 4096; n = set_next(n), ++k) {
+        struct conf_node_base *b = set_node_data(n);
+        if (!b->specified && !b->hook)
+            b->hook = vh_hook_u;
+        if (b->type == CONF_OBJECT)
+            hook_unregistered_nodes(ENCLOSING_STRUCT(b, struct conf_node_object, base), depth + 1);
+    }
+}
+
 static CONF_UPDATE_HOOK(vh_hook)
 {
     hook_count++;
@@ -95,7 +122,7 @@ static void dump_node(struct char_vector *cv, struct conf_node_base *b)
     char_vector_append_string(cv, "{\"n\":");
     jstr(cv, b->name);
     char_vector_append_printf(cv, ",\"t\":\"%s\",\"sp\":%d,\"pr\":%d,\"hk\":%d", kind_name(b->type), b->specified, b->present,
-                              b->hook == vh_hook ? 1 : (b->hook ? 2 : 0));
+                              b->hook == vh_hook ? 1 : ((b->hook && b->hook != vh_hook_u) ? 2 : 0));
     switch (b->type) {
     case CONF_STRING: {
         struct conf_node_string *s = ENCLOSING_STRUCT(b, struct conf_node_string, base);
@@ -191,7 +218,7 @@ static struct conf_node_object *parent_of(char *path, char **leaf)
         struct conf_node_object *c;
         *sl = '\0';
         c = conf_register_object(obj, path);
-        if (!c->base.hook)
+        if (!c->base.hook || c->base.hook == vh_hook_u)
             c->base.hook = vh_hook;
         obj = c;
         path = sl + 1;
@@ -234,13 +261,15 @@ static void do_register(const char *spec)
         par = parent_of(f[1], &leaf);
         n = conf_register_inaddr(par, leaf, nul1(f[2]), nul1(f[3]));
         n->base.hook = vh_hook;
+    } else if (f[0][0] == 'u') {
+        hook_unregistered = 1;
     } else if (f[0][0] == 'r') {
         conf_get_root()->base.hook = vh_hook;     /* observe membership changes of the root, as log.c does for its section */
     } else if (f[0][0] == 'o' && nf >= 2) {
         struct conf_node_object *n;
         par = parent_of(f[1], &leaf);
         n = conf_register_object(par, leaf);
-        if (!n->base.hook)
+        if (!n->base.hook || n->base.hook == vh_hook_u)
             n->base.hook = vh_hook;
     } else {
         fprintf(stderr, "bad registration %s\n", spec);
@@ -255,7 +284,12 @@ static int do_load(const char *data, size_t len)
         fprintf(stderr, "memfd write failed\n");
         _exit(3);
     }
-    return conf_read(mpath);
+    {
+        int rc = conf_read(mpath);
+        if (rc == 0 && hook_unregistered)
+            hook_unregistered_nodes(conf_get_root(), 0);
+        return rc;
+    }
 }
 
 static const char *SEVN[] = { "debug", "command", "info", "warning", "error", "fatal" };
